@@ -75,15 +75,24 @@ Init == /\ pc = "Start" /\ out = NoOut
                /\ \/ (x = "default" /\ s = "0" /\ e = "3")
                   \/ (f = "none" /\ ~t /\ ~p /\ s = "0" /\ e = "3")
                   \/ (f = "none" /\ ~t /\ ~p /\ x = "default")
-               /\ argv = [file |-> f, testnet |-> t, paranoia |-> p, account |-> x, start |-> s, end |-> e, cmd |-> c, arg |-> a]
+               /\ \E h \in BOOLEAN : argv = [file |-> f, testnet |-> t, paranoia |-> p, account |-> x, start |-> s, end |-> e,
+                                            cmd |-> c, arg |-> a, help |-> h /\ x = "default" /\ s = "0" /\ e = "3"]
         /\ fs = argv.file
 
 Accepts(v) == v \in {"accept", "ok"}
 Maybe(v) == v = "either"
 
 \* argument parsing: every validator is a named conjunct; a class with verdict "either" may go both ways
+\* --help / -h anywhere: usage on stdout, status 0, nothing else happens (argparse acts on it as soon
+\* as it is parsed; options before it may already have been validated and refused)
+Help ==
+  /\ pc = "Start" /\ argv.help
+  /\ \/ pc' = "Done" /\ out' = [out EXCEPT !.exit = 0, !.stdout = "help"]
+     \/ FileVerdict(argv.file) # "accept" /\ pc' = "Done" /\ out' = [out EXCEPT !.exit = 2]
+  /\ UNCHANGED <<argv, fs>>
+
 ParseArgs ==
-  /\ pc = "Start"
+  /\ pc = "Start" /\ ~argv.help
   /\ \E okFile \in BOOLEAN, okAcct \in BOOLEAN, okIv \in BOOLEAN, okArg \in BOOLEAN :
        /\ (okFile => FileVerdict(argv.file) \in {"accept", "either"}) /\ (~okFile => FileVerdict(argv.file) \in {"reject", "either"})
        /\ (okAcct => AccountVerdict(argv.account) \in {"accept", "either"}) /\ (~okAcct => AccountVerdict(argv.account) \in {"reject", "either"})
@@ -119,7 +128,7 @@ Emit ==
      ELSE out' = [out EXCEPT !.exit = 0, !.created = TRUE] /\ fs' = "created"
   /\ pc' = "Done" /\ UNCHANGED argv
 
-Next == ParseArgs \/ NoCommand \/ BuildAndGenerate \/ Filter \/ Emit
+Next == Help \/ ParseArgs \/ NoCommand \/ BuildAndGenerate \/ Filter \/ Emit
 
 Spec == Init /\ [][Next]_vars
 
@@ -128,10 +137,11 @@ Spec == Init /\ [][Next]_vars
 Done == pc = "Done"
 
 FailureIsSilent(a, o, fsBefore, fsAfter) ==
-  o.exit # 0 => o.stdout \in {"empty", "help"} /\ ~o.created /\ fsAfter = fsBefore
+  /\ (o.exit # 0 => o.stdout \in {"empty", "help"} /\ ~o.created /\ fsAfter = fsBefore)
+  /\ (a.help /\ o.exit = 0 => o.stdout = "help" /\ ~o.created /\ fsAfter = fsBefore)
 
 SuccessEqualsApi(a, o) ==
-  o.exit = 0 =>
+  o.exit = 0 /\ ~a.help =>
      /\ (a.file = "none" => o.stdout = (IF a.paranoia THEN "wallet-filtered" ELSE "wallet") /\ ~o.created)
      /\ (a.file # "none" => o.stdout = "empty" /\ o.created)
      /\ o.net = NetOf(a.cmd, a.arg, a.testnet)
